@@ -73,7 +73,7 @@ class Expect:
 
 
 def evaluate(spec: dict, model: dict, *, context: dict, bust: bool, storage_null: bool = False,
-             unpicklable_fails: bool = True) -> Expect:
+             unpicklable_fails: bool = True, corrupt=()) -> Expect:
     """model: nid -> value currently cached. Returns what a run of spec['requested'] must do."""
     nodes = {n['id']: n for n in spec['nodes']}
     ex = Expect(new_model=dict(model))
@@ -83,6 +83,14 @@ def evaluate(spec: dict, model: dict, *, context: dict, bust: bool, storage_null
             return
         node = nodes[i]
         cacheable = node['type'] in CACHEABLE and not storage_null
+        if (not bust) and cacheable and i in model and i in corrupt:
+            # an entry that exists but cannot be loaded: the task is treated as cached (its dependencies are not needed), the load
+            # fails, the task counts as failed
+            ex.status[i] = 'failed'
+            ex.why[i] = 'corrupt-cache'
+            ex.loaded.append(i)
+            ex.deps_in_run[i] = []
+            return
         if (not bust) and cacheable and i in model:
             ex.status[i] = 'loaded'
             ex.value[i] = model[i]
